@@ -328,7 +328,7 @@ class C07(Prop):
     named_errors = {"PeMagic"}                  # "rejected with the dedicated wrong-format error"
     pid = "C07"
     title = "headers"
-    thm_modules = ["PeliteModel.Thm.C07", "PeliteModel.Thm.C07Checksum", "PeliteModel.Thm.C07Layout", "PeliteModel.Thm.ImageLayout"]
+    thm_modules = ["PeliteModel.Thm.C07", "PeliteModel.Thm.C07Checksum", "PeliteModel.Thm.C07Layout", "PeliteModel.Thm.C07Name", "PeliteModel.Thm.ImageLayout"]
     gens = [gen_img.gen_c07_corpus, gen_img.gen_c07, gen_img.gen_c07_boundaries]
 
     def oracle(self, op, impl, model, spec):
